@@ -22,8 +22,10 @@ type Gen struct {
 	G       GenesisSpec
 	accts   []string // EOAs
 	vals    []string // validator identities (initial + candidates)
+	curH    int64    // height of the block being generated
 	class   string   // class of the request being drawn
 	hclass  string   // which aspect of the request is adversarial
+	Exodus  bool     // allow every validator to unstake everything
 	Hostile float64  // probability that a block contains one adversarial request
 	Direct  float64  // probability of direct delivery (byzantine proposer) for adversarial requests
 }
@@ -96,6 +98,13 @@ func (g *Gen) Tx(kind string, hostile bool) STx {
 		t.A = A{"v": v, "d": d, "amt": g.amount(1, 3, hostile)}
 	case "UNSTAKE", "WITHDRAW":
 		v := g.pick(g.vals)
+		if kind == "UNSTAKE" && !g.Exodus && len(g.vals) > 1 {
+			// ordinary histories keep the first validator staked so that the chain always has
+			// an eligible validator (the "everybody leaves" history is a family of its own)
+			for v == g.vals[0] {
+				v = g.pick(g.vals)
+			}
+		}
 		d := "s" + v
 		if g.R.Intn(6) == 0 {
 			d = g.pick(g.accts)
@@ -117,6 +126,11 @@ func (g *Gen) Tx(kind string, hostile bool) STx {
 	default:
 		return g.txExt(kind, hostile)
 	}
+	return g.finish(t, hostile)
+}
+
+// finish applies the non-amount adversarial classes and the submission path.
+func (g *Gen) finish(t TxReq, hostile bool) STx {
 	switch g.hclass {
 	case "cur":
 		if g.R.Intn(2) == 0 {
@@ -150,6 +164,7 @@ var BaseKinds = []string{"SEND", "SEND", "SENDPOOL", "STAKE", "UNSTAKE", "WITHDR
 func (g *Gen) Mixed(id string, n, maxTx int, kinds []string) *Scenario {
 	sc := &Scenario{ID: id, Genesis: g.G}
 	for i := 0; i < n; i++ {
+		g.curH = int64(i + 1)
 		b := SBlock{DT: int64(g.rng(1, 20)), Proposer: g.pick(g.vals)}
 		if g.R.Intn(4) == 0 {
 			b.DT = int64(g.rng(100000, 3000000)) // jump: crosses reward cycles and years
